@@ -94,7 +94,9 @@ class Check:
                 seen.add(scn["id"])
                 uniq.append(scn)
         scenarios = uniq
-        results = pool.run_all(scenarios, seed=self.seed, fn=fn, repo=repo)
+        # a scenario that does not return within the limit counts as a hang of the library (process_survives); the limit is
+        # generous because a loaded machine slows every scenario down
+        results = pool.run_all(scenarios, seed=self.seed, fn=fn, repo=repo, per_scn_timeout=600 if self.tier == "quick" else 1500)
         self.stats["scenarios"] += len(results)
         good = []
         for scn, r in zip(scenarios, results):
